@@ -38,8 +38,15 @@ def env_for(symbolic):
     return env
 
 
+import threading
+STOP = threading.Event()
+FAILFAST = os.environ.get("VERIF_FAILFAST") == "1"      # seed evaluation only: stop queueing work after the first counterexample
+
+
 def run_worker(job):
     ob, case = job["ob"], job["case"]
+    if STOP.is_set():
+        return job, {"status": "skipped"}
     cmd = [PY_SYM, os.path.join(VERIF, "engine", "worker.py"), job["module"], ob.fn,
            json.dumps(case), str(job["timeout"]), str(ob.path_timeout or ""), getattr(ob, "smt", None) or ""]
     t0 = time.time()
@@ -181,6 +188,8 @@ def main():
         for fu in concurrent.futures.as_completed(futs):
             job, res = fu.result()
             results.append((job, res))
+            if FAILFAST and res.get("status") == "refuted" and job["ob"].expect == "confirm":
+                STOP.set()
             if os.environ.get("VERIF_VERBOSE"):
                 print("  . %-28s %-9s paths=%-5s cpu=%-7s %s" % (job["ob"].id, res.get("status"), res.get("paths"),
                       res.get("cpu_s"), json.dumps(job["case"], sort_keys=True)), flush=True)
@@ -204,7 +213,9 @@ def main():
         total_solver += rec["solver_queries"]
         total_solver_s += rec["solver_s"]
         label = "%s %s" % (ob.id, json.dumps(case, sort_keys=True))
-        if st_ == "error":
+        if st_ == "skipped":
+            rec["verdict"] = "skipped (fail-fast after a counterexample)"
+        elif st_ == "error":
             rec["verdict"] = "harness-error"
             harness_errors.append("%s: worker error: %s" % (label, res.get("error", "")[-1500:]))
         elif st_ in ("unknown", "pre_unsat"):
